@@ -486,6 +486,13 @@ pub fn fixed_corpus() -> Corpus {
     if let Some(t) = read("/repo/grammars/tests/examples.http") {
         docs.push((Backend::Http, g("http").map(|t| (t, "http")), t));
     }
+    // large documents: tens of thousands of counted calls (16-bit boundaries of counters)
+    if let Some(t) = read("/repo/grammars/benches/requests.http") {
+        docs.push((Backend::Http, g("http").map(|t| (t, "http")), t));
+    }
+    if let Some(t) = read("/repo/grammars/benches/data.json") {
+        docs.push((Backend::Json, g("json").map(|t| (t, "json")), t));
+    }
     let sql_docs = [
         "select a, b from t where a = 1 and b in (1, 2, 3)",
         "insert into t (a, b) select c, d from u",
